@@ -117,6 +117,11 @@ func (em *emitter) _emitExpr(expr ast.Expression, dstType reflect.Type, reg int8
 			typ := em.typ(expr.Args[0])
 			arg := em.emitExpr(expr.Args[0], typ)
 			markdownToHTML := ti.IsFormatType() && ti.Type != stringType
+			if typ.Kind() == reflect.Slice && convertType.Kind() == reflect.Pointer {
+				// The conversion from a slice to an array pointer panics if
+				// the slice is shorter than the array.
+				em.fb.addPosAndPath(expr.Pos())
+			}
 			if canEmitDirectly(convertType.Kind(), dstType.Kind()) {
 				if markdownToHTML {
 					em.changeRegisterConvertFormat(false, arg, reg, typ, convertType)
